@@ -28,6 +28,7 @@ RULES = {
     'R5': 'resume offset flows to both sources',
     'R6': 'EXPR of next_page',
     'R7': 'sibling agreement: byte order of OutPoint in the stable index key vs Ord for Utxo',
+    'R8': 'the stable source of a page is the delta-reverting accessor, unconditionally (= C08.R1b)',
 }
 ASSUMPTIONS = ['depth counts fit i32']
 T = 'ic_btc_canister::types::'
@@ -159,6 +160,13 @@ def run(ctx):
     # R4
     c02.r4(ctx, 'R4', only_page=True)
     r7_order_agreement(ctx)
+    # the unstable source resumes at the offset inclusively and filters spent outputs (shared with
+    # C01.R8); the stable source is read through the accessor that masks a partially ingested block
+    # whatever the offset is (shared with C08.R1b) — a page may be requested between two slices
+    from sa.engine import SubCtx
+    from rules import c01, c08
+    c01.r8(SubCtx(ctx, {'R8': 'R5'}))
+    c08.r1b(SubCtx(ctx, {'R1b': 'R8'}))
 
 
 def r7_order_agreement(ctx, rule='R7'):
